@@ -48,6 +48,60 @@ type Net struct {
 	// destination.  Multi-node drivers model partitions with it.
 	Filter func(myraft.Message) bool
 	Cut    int
+
+	// held: messages taken out of the queue by Hold/HoldIf (delayed, not lost);
+	// Release puts them back in front of the queue.
+	held []myraft.Message
+}
+
+// Hold moves the i-th queued message into the held-back pool.
+func (n *Net) Hold(i int) bool {
+	m, ok := n.take(i)
+	if ok {
+		n.mu.Lock()
+		n.held = append(n.held, m)
+		n.mu.Unlock()
+	}
+	return ok
+}
+
+// HoldIf moves every queued message matching f into the held-back pool
+// (queue order is kept) and returns how many were moved.
+func (n *Net) HoldIf(f func(myraft.Message) bool) int {
+	n.mu.Lock()
+	defer n.mu.Unlock()
+	rest := n.queue[:0:0]
+	moved := 0
+	for _, m := range n.queue {
+		if f(m) {
+			n.held = append(n.held, m)
+			moved++
+		} else {
+			rest = append(rest, m)
+		}
+	}
+	n.queue = rest
+	return moved
+}
+
+// Held returns the number of held-back messages.
+func (n *Net) Held() int {
+	n.mu.Lock()
+	defer n.mu.Unlock()
+	return len(n.held)
+}
+
+// Release puts the held-back messages in front of the queue (in the order they
+// were held) and returns how many there were.
+func (n *Net) Release() int {
+	n.mu.Lock()
+	defer n.mu.Unlock()
+	k := len(n.held)
+	if k > 0 {
+		n.queue = append(append([]myraft.Message(nil), n.held...), n.queue...)
+		n.held = nil
+	}
+	return k
 }
 
 // Send implements transport.Transport.
